@@ -1251,6 +1251,16 @@ class ExtendNode(ViewRepresentation):
                         + str(opk)
                         + "'"
                     )
+                if opk.inline:
+                    # x + 1, x > y, ... : an operator, not a window or aggregation function
+                    raise ValueError(
+                        "non-aggregated expression in windowed/partitioned extend: "
+                        + "'"
+                        + k
+                        + "': '"
+                        + str(opk)
+                        + "'"
+                    )
                 if len(opk.args) > 1:
                     for i in range(1, len(opk.args)):
                         if not isinstance(opk.args[i], data_algebra.expr_rep.Value):
